@@ -516,7 +516,8 @@ class ExprGen:
         return o
 
     OPS = ["leaf", "not", "neg", "add", "sub", "lt", "eq", "chain", "and", "or", "and3", "or3", "call", "andor", "orand",
-           "and4", "or4", "and5", "or5", "mixed4"]  # chains of four / five operands: leaves only (distinct external calls)
+           "and4", "or4", "and5", "or5", "mixed4",  # chains of four / five operands: leaves only (distinct external calls)
+           "ifexp", "ifexp-boolarms"]  # conditional expressions: test first, then exactly one arm
 
     def expr(self, d, top=False):
         ops = (self.OPS if top else self.inner_ops) if d > 0 else ["leaf"]
@@ -556,6 +557,12 @@ class ExprGen:
         if op == "mixed4":
             a, b, c_, d_ = (self.leaf(simple=True) for _ in range(4))
             return f"({a} and {b} or {c_} and {d_})"
+        if op == "ifexp":
+            body, test, orelse = sub(), sub(), sub()
+            return f"({body} if {test} else {orelse})"
+        if op == "ifexp-boolarms":
+            l = [self.leaf(simple=True) for _ in range(5)]
+            return f"(({l[0]} and {l[1]}) if {l[2]} else ({l[3]} or {l[4]}))"
         if op == "andor":
             return f"({sub()} and ({sub()} or {sub()}))"
         if op == "orand":
